@@ -252,9 +252,11 @@ impl<'de> Deserialize<'de> for Phase {
         match s.as_str() {
             "." => Ok(Phase(None)),
             _ => {
-                let p = u8::from_str(&s)
-                    .map_err(|_| serde::de::Error::custom("Phase must be \".\", 0, 1, or 2"))?;
-                Ok(Phase(Self::validate(p)))
+                let invalid = || serde::de::Error::custom("Phase must be \".\", 0, 1, or 2");
+                let p = u8::from_str(&s).map_err(|_| invalid())?;
+                Self::validate(p)
+                    .map(|p| Phase(Some(p)))
+                    .ok_or_else(invalid)
             }
         }
     }
